@@ -56,10 +56,15 @@ impl Hook for Turn {
             let left = self.deadline.checked_sub(start.elapsed());
             match left {
                 None => {
-                    self.failed.store(true, Ordering::Relaxed);
+                    if !self.failed.swap(true, Ordering::Relaxed) && std::env::var("RR_DEBUG").is_ok() {
+                        eprintln!("timeout: {}({}) waited while the cursor stood at {} = {:?}", kind, sys, *cur, self.trace.get(*cur));
+                    }
                     break;
                 }
                 Some(l) => {
+                    if std::env::var("RR_DEBUG").is_ok() && start.elapsed() > Duration::from_millis(1000) && start.elapsed() < Duration::from_millis(1060) {
+                        eprintln!("  waiting: {}({}) on {:?} / rayon worker {:?}, cursor {}", kind, sys, std::thread::current().id(), rayon::current_thread_index(), *cur);
+                    }
                     let (g, _) = self.cv.wait_timeout(cur, l.min(Duration::from_millis(50))).unwrap();
                     cur = g;
                 }
@@ -204,6 +209,10 @@ fn main() {
     let mut skipped = 0u64;
     let mut failures: Vec<Value> = Vec::new();
     let mut samples: Vec<Value> = Vec::new();
+    let mut kf2_total = 0u64;
+    let mut retries = 0u64;
+    let mut skipped_nested = 0u64;
+    let mut kf2_diverged = 0u64;
     for it in &items {
         let sc = match it.get("scenario") {
             Some(s) => s,
@@ -212,6 +221,26 @@ fn main() {
                 continue;
             }
         };
+        // plans of the recorded finding KF2 (a thread-local system with declared access inside a batch) race by
+        // construction; their replays are reported separately, not as conformance failures
+        fn kf2(ops: &[Op], in_batch: bool) -> bool {
+            ops.iter().any(|o| match o {
+                Op::Tl(s) => in_batch && !(s.reads.is_empty() && s.writes.is_empty()),
+                Op::Batch(b) => kf2(&b.inner, true),
+                _ => false,
+            })
+        }
+        let is_kf2 = sc.get("ops").and_then(plan_from_json).map_or(false, |o| kf2(&o, false));
+        // a batch nested inside a batch is built before its parent is handed the shared pool handle, so it
+        // creates a private default pool; a worker blocked in that cross-pool `install` steals from its own
+        // deque, and which thread runs a pending sibling is then a race the turnstile cannot steer
+        fn nested(ops: &[Op], depth: usize) -> bool {
+            ops.iter().any(|o| matches!(o, Op::Batch(b) if depth >= 1 || nested(&b.inner, depth + 1)))
+        }
+        if sc.get("ops").and_then(plan_from_json).map_or(false, |o| nested(&o, 0)) {
+            skipped_nested += 1;
+            continue;
+        }
         let has_panics = sc.get("panics").and_then(|p| p.as_array()).map_or(false, |a| !a.is_empty());
         let has_rv = sc.get("rendezvous").map_or(false, |r| !r.is_null());
         if has_panics || has_rv {
@@ -219,14 +248,27 @@ fn main() {
             continue;
         }
         let trace: Vec<(String, u16)> = it.get("trace").and_then(|t| t.as_array()).map(|a| a.iter().filter_map(|e| Some((e.get(0)?.as_str()?.to_string(), e.get(1)?.as_u64()? as u16))).collect()).unwrap_or_default();
-        let forced = run(sc, Some(trace.clone()), &pool, Duration::from_millis(1500));
+        // which idle worker picks a job up first is real rayon's own race: one successful replay shows that
+        // the order is realisable, so a failed attempt is retried a few times
+        let mut forced = run(sc, Some(trace.clone()), &pool, Duration::from_millis(700));
+        let mut attempts = 1;
+        while !is_kf2 && attempts < 4 && forced.as_ref().map_or(false, |f| f.failed && f.panic.is_none()) {
+            forced = run(sc, Some(trace.clone()), &pool, Duration::from_millis(700));
+            attempts += 1;
+            retries += 1;
+        }
         let reference = run(sc, None, &pool, Duration::from_millis(1500));
         match (forced, reference) {
             (Some(f), Some(r)) => {
                 let is_script = sc.get("script").map_or(false, |s| s.is_string());
                 let same = is_script || (f.values == r.values && f.obs == r.obs && f.runs == r.runs);
-                if f.failed || f.panic.is_some() || !same {
-                    failures.push(json!({"scenario": sc, "trace_len": trace.len(), "realised_prefix": f.realised.len(), "could_not_follow_order": f.failed, "panic": f.panic, "same_outcome_as_sequential": same}));
+                if is_kf2 {
+                    kf2_total += 1;
+                    if f.failed || f.panic.is_some() || !same {
+                        kf2_diverged += 1;
+                    }
+                } else if f.failed || f.panic.is_some() || !same {
+                    failures.push(json!({"scenario": sc, "trace_len": trace.len(), "realised_prefix": f.realised.len(), "realised_order": f.realised.iter().map(|(k, s)| format!("{}({})", k, s)).collect::<Vec<_>>().join(" "), "could_not_follow_order": f.failed, "panic": f.panic, "same_outcome_as_sequential": same}));
                 } else {
                     realised += 1;
                     if samples.len() < 2 {
@@ -240,7 +282,8 @@ fn main() {
     let out = json!({
         "engine": "E4 realreplay",
         "what": "event traces explored by E2, forced with a turnstile on the unmodified crate (hooks off) and real rayon (pool of 8); outcome compared with the sequential run",
-        "traces": items.len(), "realised": realised, "skipped": skipped, "conformance_failures": failures.len(),
+        "traces": items.len(), "realised": realised, "skipped": skipped, "skipped_nested_batch_plans": skipped_nested, "retries": retries, "conformance_failures": failures.len(),
+        "known_finding_KF2_traces": kf2_total, "known_finding_KF2_traces_that_diverge_on_real_rayon": kf2_diverged,
         "failures": failures.iter().take(5).collect::<Vec<_>>(), "samples": samples, "wall_s": t0.elapsed().as_secs_f64(),
     });
     if let Some(p) = frag {
